@@ -1,17 +1,16 @@
 SPECIFICATION Spec
 CONSTANTS
   MinNodes = 0
-  MaxNodes = 3
+  MaxNodes = 2
   Base = 256
   MaxChain = 1
   IdxSpace = 8
   PastEndRule = "ge"
   CompletionOrder = "rewrite-publish"
-  Withdrawals = TRUE
+  Withdrawals = FALSE
   ConcurrentWithdrawals = FALSE
   HostReads = "snapshot"
   Reannouncements = TRUE
-  ReannounceRule = "atomic"
+  ReannounceRule = "remove-then-add"
 CHECK_DEADLOCK FALSE
-INVARIANTS BoundedCalls ExactCalls EachNodeOnceInOrder InOrder CursorRoundTrip PastEndIsTerminal NoCrash DeliveredComposite ResumeSafe
-PROPERTIES Terminates
+INVARIANTS ExactCalls EachNodeOnceInOrder
